@@ -20,7 +20,12 @@ PROP = dict(
         "PKGPATH strings over {'.','/','a',' ','\\t','\\n'} and short names",
         "source directories: absolute, or relative to the working directory ('.', 'a/a', '..', '../..'), depth 0-3 below the "
         "module root; module root at several levels or absent; marker script at EVERY directory level from '/' downwards",
-        "import graphs: 2-7 scripts, DAGs, diamonds, several spellings of one file, cycles of length 1-4 (also through the main script)",
+        "import graphs: 2-7 scripts, DAGs, diamonds, several spellings of one file, cycles of length 1-4 (also through the main script); "
+        "observable = outcome AND the set of files opened (the model traces afero.ReadFile in compile order)",
+        "nested modules (quick: 200 layouts x 2): go.mod at the base and/or at 1-2 nested directories, the same relative names "
+        "(data/lib/util) with different contents in all 5 directories, module-rooted imports issued at every depth including "
+        "directly in a nested root, 2-5 imports per main script evaluated in BOTH orders so that root-cache entries of an earlier "
+        "import are live when a later one resolves",
     ],
     level_text="Proof: 25 Lean theorems. For ALL import-path strings, working directories, source directories and file systems the "
                "transliterated pipeline compilePackage -> importLocalFile -> findRootFromModule -> fileValue (as repaired) reads, "
